@@ -658,4 +658,6 @@ RULES = [
     Rule("C05.F7", rule_F7, floor=1, doc="threshold selection"),
     Rule("C05.F8", rule_F8, floor=3, doc="serialisation does not drift the configuration's identity"),
     Rule("C05.F9", rule_F9, floor=7, doc="allocation sizes agree with the enumeration"),
+    Rule("C05.E12", lambda ctx: __import__("sa.mypyx", fromlist=["x"]).cross_check(ctx, [f"{MD}.MazeDataset.serialize", f"{CD}.MazeDatasetCollection.serialize", f"{DS}.GPTDataset.save"], "C05.E12"), floor=1,
+         doc="thorough: call graph over-approximates mypy's type-resolved edges on the serialization closure", tier="thorough"),
 ]
